@@ -76,6 +76,20 @@ def replay(ck):
         print("REPLAY: only extended (ix) traces can be replayed; write-admission and node traces depend on the run's clock/seed")
 
 
+def parse_pairs(out):
+    """`M = [(a%nat, b%nat); ..] : list (nat * nat)` -> [(a, b), ..]; None if the result cannot be read completely
+    (fail closed: Coq prints the %nat suffix under Z_scope and wraps long lists right after an opening parenthesis)."""
+    import re
+    m = re.search(r"M\s*=\s*(.*?)\s*:\s*list", out, re.S)
+    if not m:
+        return None
+    flat = re.sub(r"%\w+", "", re.sub(r"\s+", "", m.group(1)))
+    tups = re.findall(r"\((\d+),(\d+)\)", flat)
+    if len(tups) != flat.count("(") or (not tups and flat not in ("[]", "nil")):
+        return None
+    return [(int(a), int(b)) for a, b in tups]
+
+
 def main(ck):
     if getattr(ck, "replay", None):
         return replay(ck)
@@ -114,16 +128,27 @@ def main(ck):
                "Definition cases : list (list (Z * Z) * list event * list obs) := [\n%s\n].\n"
                "Definition M := Eval vm_compute in mismatches cases.\nPrint M.\n") % ";\n".join(case_coq(t) for t in chunk)
         files.append(("cases%d" % (i // shard), txt))
+    # permanent canary: 20 copies of trace 0 whose first observation is corrupted - all 20 must be reported
+    NCAN = 20
+    bad = json.loads(json.dumps(traces[0]))
+    bad["obs"][0]["node"] = list(bad["obs"][0]["node"]) + [987654321]
+    files.append(("casescanary", ("From Coq Require Import ZArith List Bool. From OG Require Import C14.Model C14.Corr.\n"
+                  "Import ListNotations. Open Scope Z_scope.\n"
+                  "Definition cases : list (list (Z * Z) * list event * list obs) := [\n%s\n].\n"
+                  "Definition M := Eval vm_compute in mismatches cases.\nPrint M.\n") % ";\n".join([case_coq(bad)] * NCAN)))
     res = ck.coq_eval_many(files) if ok else []
     mism = []
-    import re
     for idx, (rc2, o) in enumerate(res):
-        m = re.search(r"M\s*=\s*(.*?)\s*:\s*list", o, re.S)
-        if rc2 != 0 or not m:
-            ck.broken.append("model evaluation failed on shard %d: %s" % (idx, o[-400:]))
+        pairs = parse_pairs(o) if rc2 == 0 else None
+        if pairs is None:
+            ck.broken.append("model evaluation failed or gave an unreadable result on shard %d: %s" % (idx, o[-400:]))
             continue
-        for a, b in re.findall(r"\((\d+),\s*(\d+)\)", m.group(1)):
-            mism.append((idx * shard + int(a), int(b)))
+        if idx == len(res) - 1:  # the canary shard
+            if sorted(a for a, _ in pairs) != list(range(NCAN)):
+                ck.broken.append("C14 canary: a corrupted case was not reported by the model evaluation (node traces)")
+            continue
+        for a, b in pairs:
+            mism.append((idx * shard + a, b))
     # verdicts
     nontriv = set()
     hist = {}
@@ -203,7 +228,17 @@ def run_ix(ck, binp, coq_ok):
     traces = ctraces + traces
     shard = 20
     files = [("xcases%d" % (i // shard), xcases.xfile(traces[i:i + shard])) for i in range(0, len(traces), shard)]
+    # permanent canary: copies of trace 0 with a corrupted first observation - no variant may agree with any of them
+    NCAN = 10
+    bad = json.loads(json.dumps(traces[0]))
+    bad["obs"][0]["nsh"] = list(bad["obs"][0]["nsh"]) + [987654321]
+    files.append(("xcasescanary", xcases.xfile([bad] * NCAN)))
     res = ck.coq_eval_many(files) if coq_ok else []
+    if res:
+        rcc, oc = res.pop()
+        vc = xcases.parse_verdicts(oc) if rcc == 0 else None
+        if vc is None or len(vc) != NCAN or any(x == 0 for v in vc for x in v):
+            ck.broken.append("C14 canary: a corrupted case was not reported by the model evaluation (ix traces)")
     verdicts = []
     for idx, (rc2, o) in enumerate(res):
         v = xcases.parse_verdicts(o) if rc2 == 0 else None
@@ -285,9 +320,14 @@ def run_wa(ck, binp, coq_ok):
     if rc != 0 or len(cases) != n:
         ck.broken.append("harness c14 wa failed rc=%d cases=%d: %s" % (rc, len(cases), out[-500:]))
         return
-    body = ";\n".join("(%s, %s, %s, %s)" % (coq_z(c["d"]), coq_z(c["nowsec"]), coq_z(c["min_time"]),
-                                              coq_list(["(%s, %s)" % (coq_z(r["t"]), coq_bool(r["mapped"])) for r in c["rows"]]))
-                       for c in cases)
+    def wa_coq(c):
+        return "(%s, %s, %s, %s)" % (coq_z(c["d"]), coq_z(c["nowsec"]), coq_z(c["min_time"]),
+                                     coq_list(["(%s, %s)" % (coq_z(r["t"]), coq_bool(r["mapped"])) for r in c["rows"]]))
+    # permanent canary: corrupted copies of case 0 appended after the real cases; exactly they must be reported in addition
+    NCAN = 10
+    bad = json.loads(json.dumps(cases[0]))
+    bad["min_time"] += 1
+    body = ";\n".join([wa_coq(c) for c in cases] + [wa_coq(bad)] * NCAN)
     txt = (xcases.XHEAD + "Definition cases : list wacase := [\n%s\n].\n"
            "Definition M := Eval vm_compute in wa_mismatches cases.\nPrint M.\n") % body
     mism = []
@@ -297,7 +337,10 @@ def run_wa(ck, binp, coq_ok):
         if rc2 != 0 or not m:
             ck.broken.append("model evaluation (wa) failed: %s" % o[-400:])
         else:
-            mism = [int(x) for x in re.findall(r"\d+", m.group(1))]
+            got = [int(x) for x in re.findall(r"\d+", re.sub(r"%\w+", "", m.group(1)))]
+            if [x for x in got if x >= len(cases)] != list(range(len(cases), len(cases) + NCAN)):
+                ck.broken.append("C14 canary: a corrupted case was not reported by the model evaluation (write admission)")
+            mism = [x for x in got if x < len(cases)]
     oracle_fail = [(i, c) for i, c in enumerate(cases) if c["oracle"]]
     for i, c in oracle_fail[:3]:
         ck.violation({"kind": "direct-oracle", "mode": "wa", "what": c["oracle"], "case": i, "batch": c})
